@@ -6,7 +6,7 @@ import os
 import posixpath
 import random
 
-from ..core import Result, out_bytes, cli
+from ..core import crashed, Result, out_bytes, cli
 from .. import ser, model
 from ..val import veq, clone, drop_nulls
 from .c02 import Stream
@@ -496,14 +496,14 @@ def check_case(ctx, case):
         # outside the judged domain for the chain model, but the tool must still not crash
         run = run_layout(ctx, res, case, rng, lib=False)
         ctx.cleanup_case(run['dir'])
-        if run['rc'] not in (0, 1) or 'panic:' in run['stderr'] or 'goroutine ' in run['stderr']:
+        if crashed(run['rc'], run['stderr']):
             return res.violate('crash', 'bkl crashed on a layout with %s: rc=%s %s' % (e, run['rc'], run['stderr']), case=case)
         return res.skip('layout outside the judged domain: %s' % e)
     res.nontrivial = len(files) > 1
     run = run_layout(ctx, res, case, rng)
     d = run['dir']
     try:
-        if run['rc'] not in (0, 1) or 'panic:' in run['stderr'] or 'VERIF-STEP-BUDGET' in run['stderr']:
+        if crashed(run['rc'], run['stderr']):
             return res.violate('crash', 'bkl crashed / hung: rc=%s %s' % (run['rc'], run['stderr']), case=case)
         lib = run['lib']
         if lib is None:
